@@ -233,6 +233,34 @@ func (s *Sorts) Field(t types.Type, i int) (sel string, f fieldInfo) {
 	return fmt.Sprintf("%s-f%d", name, i), fs[i]
 }
 
+// PromotedPath finds field fname in t or, one level down, in an embedded struct
+// field; it returns the index path.
+func (s *Sorts) PromotedPath(t types.Type, fname string) ([]int, []types.Type, bool) {
+	st, ok := t.Underlying().(*types.Struct)
+	if !ok {
+		return nil, nil, false
+	}
+	for i := 0; i < st.NumFields(); i++ {
+		if st.Field(i).Name() == fname {
+			return []int{i}, []types.Type{t}, true
+		}
+	}
+	for i := 0; i < st.NumFields(); i++ {
+		f := st.Field(i)
+		if !f.Embedded() {
+			continue
+		}
+		if inner, ok := f.Type().Underlying().(*types.Struct); ok {
+			for j := 0; j < inner.NumFields(); j++ {
+				if inner.Field(j).Name() == fname {
+					return []int{i, j}, []types.Type{t, f.Type()}, true
+				}
+			}
+		}
+	}
+	return nil, nil, false
+}
+
 func (s *Sorts) FieldByName(t types.Type, fname string) (int, bool) {
 	st, ok := t.Underlying().(*types.Struct)
 	if !ok {
